@@ -12,6 +12,8 @@ import (
 	"os"
 	"runtime"
 	"runtime/debug"
+	"sort"
+	"strings"
 	"sync"
 	rtime "time"
 )
@@ -23,6 +25,9 @@ type Thread struct {
 	done   bool
 	daemon bool
 	ready  func() bool // nil => always ready
+	pcs    [12]uintptr // call stack recorded when the thread last had to wait (resolved only at a deadlock)
+	npcs   int
+	op     string      // shim operation it waits in
 	// channel commit results
 	committed bool
 	selArm    int
@@ -48,6 +53,7 @@ type Sched struct {
 	wg           sync.WaitGroup
 	Deadlock     bool
 	Blocked      []string // names of unfinished non-daemon threads at a deadlock
+	BlockedAt    []string // where each of them waits (operation@function<caller)
 	Panic        any
 	PanicStack   string
 	Steps        int
@@ -163,6 +169,7 @@ func (s *Sched) yield(t *Thread) {
 			if !x.done && !x.daemon {
 				s.Deadlock = true
 				s.Blocked = append(s.Blocked, x.name)
+				s.BlockedAt = append(s.BlockedAt, x.where())
 			}
 		}
 		s.finish(t)
@@ -301,10 +308,44 @@ func Point() {
 }
 
 // block: current thread waits until pred holds (pred evaluated at scheduling points).
-func block(pred func() bool) {
+func block(pred func() bool) { blockOp("", pred) }
+
+func blockOp(op string, pred func() bool) {
 	t := S.cur
+	t.op = op
+	t.npcs = 0
+	if !pred() {
+		t.npcs = runtime.Callers(3, t.pcs[:])
+	}
 	t.ready = pred
 	S.yield(t)
+}
+
+// where describes where a blocked thread sits: shim operation plus the innermost non-shim functions.
+func (t *Thread) where() string {
+	fr := runtime.CallersFrames(t.pcs[:t.npcs])
+	var fs []string
+	for {
+		f, more := fr.Next()
+		n := f.Function
+		if n != "" && !strings.Contains(n, "/zzverif/") && !strings.HasPrefix(n, "runtime.") {
+			if i := strings.LastIndexByte(n, '/'); i >= 0 {
+				n = n[i+1:]
+			}
+			if i := strings.IndexByte(n, '.'); i >= 0 {
+				n = n[i+1:]
+			}
+			n = strings.ReplaceAll(n, "[...]", "")
+			fs = append(fs, n)
+			if len(fs) == 2 {
+				break
+			}
+		}
+		if !more {
+			break
+		}
+	}
+	return t.op + "@" + strings.Join(fs, "<")
 }
 
 // Block exposes predicate blocking to harnesses.
@@ -414,7 +455,7 @@ type Opts struct {
 	Bound      int
 	Shard      int
 	Shards     int
-	ShardDepth int // recursion depth at which subtrees are dealt to shards (0 => 1 for Bound<=1, else 2)
+	ShardDepth int // recursion depth at which subtrees are dealt to shards (0 => 2 for Bound<=1, else 3)
 	Expired    func() bool
 	MaxExecs   int64
 }
@@ -438,9 +479,9 @@ func Explore(o Opts, body func(), check func(s *Sched, owned bool) bool) Stats {
 		o.Shards = 1
 	}
 	if o.ShardDepth == 0 {
-		o.ShardDepth = 2
+		o.ShardDepth = 3 // deeper dealing balances the shards better; the upper levels are re-run by every shard
 		if o.Bound <= 1 {
-			o.ShardDepth = 1
+			o.ShardDepth = 2
 		}
 	}
 	var counter int64
@@ -530,7 +571,14 @@ func (s *Sched) Verdict() string {
 	case s.Panic != nil:
 		return fmt.Sprintf("panic: %v", s.Panic)
 	case s.Deadlock:
-		return fmt.Sprintf("deadlock: blocked=%v", s.Blocked)
+		return "deadlock:" + s.DeadlockSig()
 	}
 	return ""
+}
+
+// DeadlockSig is a schedule-independent signature of a deadlock: the sorted places where the blocked threads wait.
+func (s *Sched) DeadlockSig() string {
+	l := append([]string(nil), s.BlockedAt...)
+	sort.Strings(l)
+	return strings.Join(l, " | ")
 }
